@@ -104,3 +104,20 @@ Definition lower (code : list sinstr) : program :=
   {| p_code := p_code p; p_data := p_data p ++ [0%N];          (* start() appends a NUL to the data segment *)
      p_uniforms := p_uniforms p; p_runesets := p_runesets p; p_handlers := p_handlers p;
      p_predicates := p_predicates p; p_actions := p_actions p; p_captures := p_captures p |}.
+
+(* The encoder's checked_cast guards (resource_limit_error): a string operand longer than 65535 bytes, a data
+   segment beyond 2^31-1 bytes, or more than 65536 entries in a resource table cannot be encoded. *)
+Definition str_len_ok (i : sinstr) : bool :=
+  let ok (s : list N) := N.leb (lenN s) 65535 in
+  match i with
+  | ISymbolMatch _ _ s idx => ok s && N.leb idx 255          (* match_front/match_back offsets are 8-bit immediates *)
+  | IMatch s | IMatchCf s | IConditionTest s _ | IConditionPush s _ | ISymbolExists s _ | ISymbolStart s | IRaise s _ => ok s
+  | ISymbolPush _ s => ok s
+  | _ => true
+  end.
+Definition limits_ok (code : list sinstr) : bool :=
+  let p := lower code in
+  forallb str_len_ok code &&
+  N.leb (lenN (p_data p)) 2147483647 &&
+  N.leb (lenN (p_uniforms p)) 65536 && N.leb (lenN (p_runesets p)) 65536 && N.leb (lenN (p_handlers p)) 65536 &&
+  N.leb (lenN (p_predicates p)) 65536 && N.leb (lenN (p_actions p)) 65536 && N.leb (lenN (p_captures p)) 65536.
